@@ -80,3 +80,19 @@ func contract_consumeStringSliceValidateUTF8(b []byte, p pointer, wtyp protowire
 	ensures(imp(err == nil, wtyp == protowire.BytesType && out.n == protowire.SpecBytesLen(b) && utf8.Valid(b[protowire.SpecVarintLen(b):protowire.SpecBytesLen(b)]) && len(*p.StringSlice()) == old(len(*p.StringSlice()))+1))
 	return
 }
+
+// ---------------------------------------------------------------- MessageSet items from lazy extensions (C47)
+
+// lazyMessageSetValue: the value it returns is the buffer without its first tagsize bytes and is
+// exactly one length-delimited value (its length prefix covers all of it) - so it can stand as the
+// value of an item's message subfield. A buffer holding several records (an extension that
+// occurred more than once) is not passed through.
+//
+// @ props C47
+// @ mode int
+func contract_lazyMessageSetValue(lb []byte, tagsize int) (v []byte) {
+	domain(tagsize >= 0) // a tag size from the coder tables
+	ensures(v == nil || (len(lb) > tagsize && sameBase(v, lb) && len(v) == len(lb)-tagsize && offsetIn(v, lb) == tagsize))
+	ensures(v == nil || protowire.SpecBytesLen(v) == len(v))
+	return
+}
